@@ -5,7 +5,7 @@
    path element boundaries, "*" is one whole name or one whole key value, "..." one or more whole elements. *)
 From Coq Require Import List NArith Bool Lia.
 From OC Require Import Base.Bytes Model.Merge Model.Wildcard Spec.Gnmi
-     Proofs.MergeProofs Proofs.PathProofs Proofs.WildcardProofs Proofs.PathAbstraction.
+     Proofs.MergeProofs Proofs.TextPathProofs Proofs.WildcardProofs Proofs.PathAbstraction.
 Import ListNotations.
 Open Scope N_scope.
 
